@@ -7,8 +7,8 @@ WT=/var/tmp/seedtest
 [ -d "$WT" ] || git -C /repo worktree add --detach "$WT" HEAD >/dev/null 2>&1
 cd "$WT" && git checkout -q --detach "$(git -C /repo rev-parse HEAD)" && git checkout -q -- . && git clean -fdq
 git apply "$HERE/seeded/$1/patch.diff" || { echo "patch does not apply"; exit 2; }
-cd "$HERE" && cp evidence/$2.json /var/tmp/evidence-$2.bak 2>/dev/null
-PYTHONPATH="$WT" ./check "$2" --tier "${3:-quick}"; rc=$?
-cp /var/tmp/evidence-$2.bak evidence/$2.json 2>/dev/null
+# evidence and replay files of a seeded run go to a scratch directory, not to /verif/evidence
+mkdir -p /var/tmp/seed-evidence/replays
+cd "$HERE" && VERIF_EVIDENCE_DIR=/var/tmp/seed-evidence PYTHONPATH="$WT" ./check "$2" --tier "${3:-quick}"; rc=$?
 cd "$WT" && git checkout -q -- .
 exit $rc
